@@ -103,6 +103,9 @@ func fnv(s string) uint32 {
 
 func (st *State) stringEq(a, b VString) *Term {
 	e := st.e
+	saved := e.ar.SideCond
+	e.ar.SideCond = nil
+	defer func() { e.ar.SideCond = saved }()
 	if a.Arr.Key() == b.Arr.Key() && a.Off.Key() == b.Off.Key() {
 		return Eq(a.Len, b.Len)
 	}
@@ -200,20 +203,26 @@ func (st *State) binop(op token.Token, t types.Type, x, y Val, yt types.Type) Va
 func (st *State) stringConcat(a, b VString) Val {
 	e := st.e
 	I := e.ar.I()
+	saved := e.ar.SideCond
+	e.ar.SideCond = nil
+	defer func() { e.ar.SideCond = saved }()
 	if a.Len.IsConst() && a.Len.Val.Sign() == 0 {
 		return b
 	}
 	if b.Len.IsConst() && b.Len.Val.Sign() == 0 {
 		return a
 	}
-	arr := e.fresh("cat", ArraySort(I, e.ar.ByteSort()))
+	// concatenation is a deterministic function of its operands (congruence makes equal
+	// operands give equal results); its content is fixed by two quantified facts
+	args := []*Term{a.Arr, a.Off, a.Len, b.Arr, b.Off, b.Len}
+	arr := App("cat_arr", ArraySort(I, e.ar.ByteSort()), args...)
 	k := Var("$b_kcat", I)
 	z := e.ar.IConst(0)
 	st.assume(Forall([]*Term{k}, Implies(And(e.ar.Cmp(token.LEQ, tInt, z, k), e.ar.Cmp(token.LSS, tInt, k, a.Len)),
 		Eq(Select(arr, k), Select(a.Arr, e.ar.Bin(token.ADD, tInt, a.Off, k))))))
 	st.assume(Forall([]*Term{k}, Implies(And(e.ar.Cmp(token.LEQ, tInt, z, k), e.ar.Cmp(token.LSS, tInt, k, b.Len)),
 		Eq(Select(arr, e.ar.Bin(token.ADD, tInt, a.Len, k)), Select(b.Arr, e.ar.Bin(token.ADD, tInt, b.Off, k))))))
-	return VString{Reg: e.fresh("catreg", I), Arr: arr, Off: z, Len: e.ar.Bin(token.ADD, tInt, a.Len, b.Len)}
+	return VString{Reg: App("cat_reg", I, args...), Arr: arr, Off: z, Len: e.ar.Bin(token.ADD, tInt, a.Len, b.Len)}
 }
 
 func (st *State) unop(op token.Token, t types.Type, x Val) Val {
